@@ -999,6 +999,21 @@ theorem inv_dvalShared (s : St) (t : T) (i : Inv s) : Inv (dvalShared s t) := by
     rw [h] at i1
     exact inv_cloneInto _ (viewOf s.nextA t) i1 (viewOf_valid _ _ t (by simp [upd]))
 
+theorem inv_parseFail (s : St) (i : Inv s) : Inv (parseFail s) := by
+  unfold parseFail
+  have i1 := inv_newArena s i
+  have := inv_dropHandle _ i1 s.nextA s.handles rfl
+  simpa using this
+
+theorem inv_dfailShared (s : St) (i : Inv s) : Inv (dfailShared s) := by
+  unfold dfailShared
+  split
+  · exact i
+  · rename_i h
+    have i1 := inv_newArena s i
+    rw [h] at i1
+    exact i1
+
 theorem inv_dcloseAt (s : St) (i : Inv s) : Inv (dcloseAt s) := by
   unfold dcloseAt
   split
@@ -1128,6 +1143,11 @@ theorem inv_stepCore (s s' : St) (op : Op) (i : Inv s) (h : stepCore s op = some
     · exact inv_parseInto s t i
     · exact inv_dvalShared s t i
   | dclose => simp only [stepCore, Option.some.injEq] at h; subst h; exact inv_dcloseAt s i
+  | dfail first =>
+    simp only [stepCore] at h
+    split at h <;> simp at h <;> subst h
+    · exact inv_parseFail s i
+    · exact inv_dfailShared s i
 
 theorem inv_step (s s' : St) (op : Op) (i : Inv s) (h : step s op = some s') : Inv s' := by
   unfold step at h
